@@ -12,8 +12,9 @@ Case (JSON):
    "k": 2 | null,                                         # max_concurrent (null = inf)
    "fail": [tags], "vanish": {tag: "idle" | "locked"},
    "script": [round, ...] | null,                         # round = {"acq": [tags], "fin": [tags], "van": [tags], "done": [tags]}
-   "race": {"job": tag, "round": r} | absent,             # let `tag` fail *during* the poll of round r, between the
-                                                          #   submitter's first and second read of its status (class Racer)
+   "race": {"job": tag, "round": r, "hold": tag2} | absent,  # let `tag` fail *during* the poll of round r, while the
+                                                          #   submitter is inside its second read of the status of `hold`
+                                                          #   (default: of `tag` itself) in that poll (class Racer)
    "policy": {"seed": n, "style": "random" | "fifo" | "greedy" | "lazy"}}
 
 A *tag* names a body: "<node>" or "<node>.<split value>".
@@ -243,6 +244,11 @@ class Player:
             self.truth[x] = "lost"
         dn = list(mv.get("done", []))
         for x in dn:
+            if c.racer is not None and c.racer.done and x == c.racer.spec["job"] and self.truth.get(x) == "locked":
+                # the racer let this body fail in the middle of a poll; its future now has the (failed) result
+                await c.until(lambda: x in c.returned, f"raced job {x} to finish")
+                self.truth[x] = "err" if x in self.fail else "ok"
+        for x in dn:
             if x not in pending or x not in c.returned or self.truth.get(x) not in ("ok", "err"):
                 bad(f"complete {x}: future has no result yet")
         for x in dn + list(mv.get("van", [])):  # all in one step of the loop: the futures are found done together
@@ -350,15 +356,16 @@ class Racer:
                 pid, _point, n = tag.rsplit(".", 2)[0].split(".")[0], None, tag.rsplit(".", 1)[1]
                 label = self._label(int(pid), int(n))
                 ck = (W.CONTROL.tag_of_ck if W.CONTROL else {})
-                if self.armed and not self.done and int(pid) == self.main_pid and label and ck.get(label) == self.spec["job"]:
+                if self.armed and not self.done and int(pid) == self.main_pid and label and ck.get(label) == self.spec.get("hold", self.spec["job"]):
                     self.reads += 1
                     if self.reads == 2:
                         # the submitter is inside its second read of this job's status within one poll: let the job fail now
                         tok = self.ctl_dir / (self.spec["job"] + ".finish")
                         tok.with_suffix(".tmp").write_text("err")
                         tok.with_suffix(".tmp").rename(tok)
-                        res = self.cache_root / label / "_result.pklz"
-                        lock = self.cache_root / (label + ".lock")
+                        jck = next((c for c, t in ck.items() if t == self.spec["job"]), label)
+                        res = self.cache_root / jck / "_result.pklz"
+                        lock = self.cache_root / (jck + ".lock")
                         t0 = time.time()
                         while time.time() - t0 < 300 and not (res.exists() and res.stat().st_size > 0 and not lock.exists()):
                             time.sleep(0.005)
